@@ -56,6 +56,20 @@ Theorem C05_language_header : forall (w1 w2 w3 w4 name w5 : str),
   language_header (w1 ++ [HASH] ++ w2 ++ LANGUAGE_WORD ++ w3 ++ [COLON] ++ w4 ++ name ++ w5) = Some name.
 Proof. exact language_header_spec. Qed.
 Print Assumptions C05_language_header.
+(* ... and nothing else is: the header pattern recognises exactly these spellings -- blanks, '#', blanks, "language", blanks, ':',
+   blanks, a non-empty name over the ASCII letters, '-' and '_', blanks (so a name with any other letter, a digit, or
+   followed by other text makes the line an ordinary comment) *)
+Theorem C05_language_header_exact : forall s name,
+  language_header s = Some name <->
+  exists w1 w2 w3 w4 w5, s = w1 ++ [HASH] ++ w2 ++ LANGUAGE_WORD ++ w3 ++ [COLON] ++ w4 ++ name ++ w5
+    /\ forallb is_space w1 = true /\ forallb is_space w2 = true /\ forallb is_space w3 = true /\ forallb is_space w4 = true
+    /\ forallb is_space w5 = true /\ name <> [] /\ forallb is_lang_char name = true.
+Proof.
+  intros s name. split; [apply language_header_shape|].
+  intros (w1 & w2 & w3 & w4 & w5 & -> & H1 & H2 & H3 & H4 & H5 & Hn & Hl). exact (language_header_spec w1 w2 w3 w4 name w5 H1 H2 H3 H4 H5 Hn Hl).
+Qed.
+Print Assumptions C05_language_header_exact.
+
 Theorem C05_language_only_at_start : language_only_at_start Table.table = true.
 Proof. exact language_only_at_start_ok. Qed.
 Print Assumptions C05_language_only_at_start.
